@@ -57,6 +57,11 @@ def run(v):
         v.failure({"kind": "model", "invariant": r.violated}, {"tlc_output": r.output[-3000:]})
     v.add_mc("MC_Config", r, "all configurations over {known-on, known-off, unknown} keys x all operation sequences: "
              "overlay, merge, unknown keys, clear, JSON round trip")
+    # named deviation: a rule whose default depends on the dialect while overlays fill from the American table
+    rd = common.tlc(os.path.join(SPEC, "mc", "MC_Config.tla"), os.path.join(SPEC, "mc", "MC_Config_dev_dialect.cfg"),
+                    "c11_mc_dev", workers=2, timeout=600, coverage=False)
+    if rd.violated != "OverlayMatchesGroup":
+        raise common.ToolError("MC_Config_dev_dialect: TLC did not refute OverlayMatchesGroup (vacuous invariant)")
     r2 = common.tlc(os.path.join(SPEC, "mc", "MC_LintGroup.tla"), os.path.join(SPEC, "mc", "MC_LintGroup_twolang_fixed.cfg"),
                     "c11_mc2", workers=8, timeout=1800)
     if r2.violated:
